@@ -614,3 +614,38 @@ Proof.
   pose proof (exec_stmts_correct te e ve Hc Hve (pstmts p) Hs [] [] (init_state b0)) as H. rewrite app_nil_r in H.
   unfold vm_of in H. simpl in H. rewrite H. destruct (exec_stmts e (pstmts p) (init_state b0)); reflexivity.
 Qed.
+
+(* ---------- consequences for the emitted instruction stream ---------- *)
+From LV Require Import Machine.SemSafe Machine.RunProofs.
+
+Definition sym_look (e : env) : rdesc -> option vval := fun r => Some (denote e r).
+Definition vm_init (b0 : bals) : vmstate := {| vstk := []; vbal := b0; vposts := []; vtx := []; vacc := [] |}.
+
+(* every typed pop finds its type, every BUMP index is in range, no nil amount is dereferenced, and the stack is
+   empty when the last instruction has run *)
+Theorem code_no_panic p te e b0 : chk_vars [] (pvars p) = Some te -> Forall (fun s => chk_stmt te s = true) (pstmts p) ->
+  cons_env te e -> env_valid e ->
+  exec (sym_look e) (code (sp_events (gen p))) (vm_init b0) <> Panic /\
+  forall st, exec (sym_look e) (code (sp_events (gen p))) (vm_init b0) = Ok st -> vstk st = [] /\ finish st = Ok st.
+Proof.
+  intros Hk Hs Hc Hv. unfold sym_look, vm_init. rewrite (exec_gen_correct p te e b0 Hk Hs Hc).
+  assert (env_ok e) as Hok by (intros x a Hl; apply (proj2 (Hv _ _ Hl) a); reflexivity).
+  pose proof (exec_stmts_np e Hok (pstmts p) (init_state b0)) as Hnp.
+  destruct (exec_stmts e (pstmts p) (init_state b0)) as [ms| |]; simpl.
+  - split; [discriminate|]. intros st H. inv H. split; reflexivity.
+  - split; [discriminate|]. intros st H. discriminate.
+  - contradiction.
+Qed.
+
+(* a successful run of Sem is reproduced instruction by instruction by the emitted code: same postings in the same
+   order, same metadata, same tracked balances; an execution error of Sem is the same error of the code *)
+Theorem code_refines_sem p given s r : run p given s = Ok r ->
+  exists te e, chk_vars [] (pvars p) = Some te /\ cons_env te e /\ env_valid e /\
+    exec (sym_look e) (code (sp_events (gen p))) (vm_init (rinit r)) =
+    Ok {| vstk := []; vbal := rbal r; vposts := all_postings r; vtx := rtx r; vacc := racc r |}.
+Proof.
+  intros H. destruct (run_inv_full _ _ _ _ H) as [te [e [ms [Hk [Hchk [Hc [Hv [He [Hp [Hb [Hsv [Ht Ha]]]]]]]]]]]].
+  exists te, e. split; [exact Hk|]. split; [exact Hc|]. split; [exact Hv|].
+  unfold sym_look, vm_init. rewrite (exec_gen_correct p te e (rinit r) Hk Hchk Hc), He. simpl.
+  unfold all_postings. rewrite Hp, Hb, Ht, Ha. reflexivity.
+Qed.
